@@ -55,6 +55,7 @@ def run(ctx):
     weighted(ctx, fx)
     block_division(ctx, fx)
     unit_ranges(ctx, fx)
+    outidx_kind(ctx, fx)
 
 
 FOUND = {}
@@ -349,6 +350,49 @@ def weighted(ctx, fx):
                            "and a suffix of nodes is in no piece" % (tot.p, wmax.p, diff))
         ctx.ob("C13.weighted.last-piece-reaches-end", "galois::graphs::divideNodesBinarySearch", not det, "; ".join(det),
                fn.loc(), "weighted", fnkey=f["key"])
+
+
+def outidx_kind(ctx, fx):
+    ctx.rule("C13.kind.file-prefix-sums-are-absolute",
+             "FileGraph: after partFromFile the out-index array still holds prefix sums counted from the start of the whole file "
+             "(kind ABS-EDGE) while numEdges, edge iterators and division targets are local (REL-EDGE): on the division path "
+             "(edge_begin / edge_end / findIndex / divideBy*) every read of outIdx[..] subtracts edgeOffset in the same statement, "
+             "and every call that is handed the array itself is handed edgeOffset too (swap is exempt)")
+    n = 0
+    FGq = "galois::graphs::FileGraph::"
+    division_path = ("edge_begin", "edge_end", "findIndex", "divideByNode", "divideByEdge")
+    for f in fx.functions:
+        if f["kind"] == "pattern" or not f["qn"].startswith(FGq):
+            continue
+        # reads, judged per source line (an expression is spread over several events: the load, conversions, min, the
+        # assignment): some event of the line must subtract edgeOffset
+        if f["name"] in division_path:
+            lines = {}
+            for b in f.get("blocks", []):
+                for e in b["ev"]:
+                    if any(isinstance(x, dict) and x.get("k") == "idx" and S(x.get("b")).endswith("outIdx") for x in walk(e)):
+                        txt = " ".join(S(v) for v in e.values() if isinstance(v, dict)) + " " + \
+                            " ".join(S(a) for a in e.get("a", []) if isinstance(a, dict))
+                        lines.setdefault(e.get("l"), []).append(txt)
+            for l, txts in sorted(lines.items()):
+                n += 1
+                ok = any("edgeOffset" in t for t in txts)
+                ctx.ob("C13.kind.file-prefix-sums-are-absolute", f["qn"], ok,
+                       "line %s reads the whole-file prefix sum outIdx[..] without subtracting edgeOffset" % l,
+                       "%s:%s" % (f["file"], l), "read@%s" % f["name"], fnkey=f["key"])
+        for b in f.get("blocks", []):
+            for e in b["ev"]:
+                if e.get("k") == "call" and e.get("name") not in ("swap",) and \
+                        any(isinstance(a, dict) and S(a) in ("this->outIdx", "g.outIdx", "o.outIdx") for a in e.get("a", [])):
+                    n += 1
+                    args = [S(a) for a in e.get("a", [])]
+                    who = [a.split("outIdx")[0] for a in args if a.endswith("outIdx")][0]
+                    ok = (who + "edgeOffset") in args
+                    ctx.ob("C13.kind.file-prefix-sums-are-absolute", f["qn"], ok,
+                           "line %s hands the whole-file prefix sums to %s without edgeOffset: every weight is too large by "
+                           "edgeOffset * edgeWeight and the last piece ends before numNodes" % (e.get("l"), e.get("name")),
+                           "%s:%s" % (f["file"], e.get("l")), "call@%s" % e.get("name"), fnkey=f["key"])
+    ctx.floor("uses of FileGraph's out-index array", n, 4)
 
 
 def block_division(ctx, fx):
